@@ -68,7 +68,27 @@ int main() {
   O(WriteEntry_deferred, Tcp::Transport::WriteEntry, deferred); O(WriteEntry_buffer, Tcp::Transport::WriteEntry, buffer); O(WriteEntry_flags, Tcp::Transport::WriteEntry, flags); O(WriteEntry_peerFd, Tcp::Transport::WriteEntry, peerFd); S(WriteEntry, Tcp::Transport::WriteEntry);
   O(BufferHolder_raw, Tcp::Transport::BufferHolder, _raw); O(BufferHolder_fd, Tcp::Transport::BufferHolder, _fd); O(BufferHolder_size, Tcp::Transport::BufferHolder, size_); O(BufferHolder_offset, Tcp::Transport::BufferHolder, offset_); O(BufferHolder_type, Tcp::Transport::BufferHolder, type); S(BufferHolder, Tcp::Transport::BufferHolder);
   O(Deferred_resolver, Async::Deferred<ssize_t>, resolver); O(Deferred_rejection, Async::Deferred<ssize_t>, rejection); S(Deferred, Async::Deferred<ssize_t>);
+  O(Cookie_name, Cookie, name); O(Cookie_value, Cookie, value); O(Cookie_path, Cookie, path); O(Cookie_domain, Cookie, domain); O(Cookie_expires, Cookie, expires);
+  O(Cookie_maxAge, Cookie, maxAge); O(Cookie_secure, Cookie, secure); O(Cookie_httpOnly, Cookie, httpOnly); O(Cookie_ext, Cookie, ext); S(Cookie, Cookie);
+  printf("#define SIZEOF_OptString %zu\n", sizeof(std::optional<std::string>)); printf("#define SIZEOF_OptInt %zu\n", sizeof(std::optional<int>));
+  O(MediaType_top, Mime::MediaType, top_); O(MediaType_sub, Mime::MediaType, sub_); O(MediaType_suffix, Mime::MediaType, suffix_); O(MediaType_raw, Mime::MediaType, raw_);
+  O(MediaType_rawSubIndex, Mime::MediaType, rawSubIndex); O(MediaType_rawSuffixIndex, Mime::MediaType, rawSuffixIndex); O(MediaType_params, Mime::MediaType, params); O(MediaType_q, Mime::MediaType, q_); S(MediaType, Mime::MediaType);
   printf("#define SIZEOF_WriteDeque %zu\n", sizeof(std::deque<Tcp::Transport::WriteEntry>));
+  printf("#define VP_MIME_TYPES ");
+#define TYPE(val, str) printf("\"%s\",", str);
+  MIME_TYPES
+#undef TYPE
+  printf("\n#define VP_MIME_SUBTYPES ");
+#define SUB_TYPE(val, str) printf("\"%s\",", str);
+  MIME_SUBTYPES
+#undef SUB_TYPE
+  printf("\n#define VP_MIME_SUFFIXES ");
+#define SUFFIX(val, str, _) printf("\"%s\",", str);
+  MIME_SUFFIXES
+#undef SUFFIX
+  printf("\n#define VP_MIME_TYPE_NONE %d\n#define VP_MIME_SUB_VENDOR %d\n#define VP_MIME_SUB_EXT %d\n#define VP_MIME_SUB_NONE %d\n#define VP_MIME_SUFFIX_NONE %d\n#define VP_MIME_SUFFIX_EXT %d\n",
+         (int)Mime::Type::None, (int)Mime::Subtype::Vendor, (int)Mime::Subtype::Ext, (int)Mime::Subtype::None, (int)Mime::Suffix::None, (int)Mime::Suffix::Ext);
+  printf("#define SIZEOF_OptQ %zu\n", sizeof(std::optional<Mime::Q>));
   printf("#define VP_METHOD_NAMES ");
 #define METHOD(repr, str) printf("\"%s\",", str);
   HTTP_METHODS
